@@ -14,6 +14,7 @@ import (
 	"encoding/json"
 	"errors"
 	"fmt"
+	"hash/fnv"
 	"io"
 	"reflect"
 	"regexp"
@@ -906,6 +907,9 @@ func TestVerifC12(t *testing.T) {
 	hw := newHolderFixture(t)
 	var rc replayT
 	replaying := r.ReplayCase(&rc)
+	walletVPRaw := map[int][]byte{}
+	walletEnv := map[string]*pe.Envelope{}
+	myShard, nShards := r.Shard()
 	foreignDone := map[string]int{} // (v') runs for the first matching wallet of a definition, in one worker
 	shapesDone := map[string]bool{} // (iv) runs once per selection shape: per shard in quick, per definition in thorough
 	var unjudged, matched, schemaInvalid, mutationsRun int64
@@ -1044,16 +1048,26 @@ func TestVerifC12(t *testing.T) {
 					name string
 					raw  []byte
 				}
-				vraw, _ := json.Marshal(presentation("ldp_vp", 2, wvc))
+				vraw, cached := walletVPRaw[wi]
+				if !cached {
+					vraw, _ = json.Marshal(presentation("ldp_vp", 2, wvc))
+					walletVPRaw[wi] = vraw
+				}
 				venvs := []venv{{"vp-holding-wallet", vraw}}
 				if len(wvc) == 0 {
 					venvs = append(venvs, venv{"empty-array", []byte("[]")})
 				}
 				for _, ve := range venvs {
 					o, p := guard("Validate(empty map)", func() string {
-						env, err := pe.ParseEnvelope(ve.raw)
-						if err != nil {
-							return "envelope-rejected"
+						// the parsed envelope depends on the wallet only: parsed once per wallet (the envelope is not modified by Validate)
+						env, hit := walletEnv[ve.name+fmt.Sprint(wi)]
+						if !hit {
+							var err error
+							env, err = pe.ParseEnvelope(ve.raw)
+							if err != nil {
+								return "envelope-rejected"
+							}
+							walletEnv[ve.name+fmt.Sprint(wi)] = env
 						}
 						ps, err := pe.ParsePresentationSubmission(emptySub)
 						if err != nil {
@@ -1434,6 +1448,13 @@ func TestVerifC12(t *testing.T) {
 					continue
 				}
 				shapesDone[shapeKey] = true
+				if !replaying && !r.Thorough() && nShards > 1 {
+					h := fnv.New32a()
+					_, _ = h.Write([]byte(shapeKey))
+					if int(h.Sum32()%uint32(nShards)) != myShard {
+						continue // quick tier: the mutation oracle of a selection shape runs in ONE worker (every worker meets every shape)
+					}
+				}
 				if len(env.entries) > 0 {
 					for _, m := range enum.Singles(doc, enum.Options{Hostile: true, NoBigString: true, SkipPaths: []string{"/id", "/definition_id"}}) {
 						muts = append(muts, mut{m.Desc(), m.Doc})
